@@ -130,6 +130,9 @@ VIEWS = {
     "weighted": lambda eng, p, h: h.fields["_weighted"],
     "INC": lambda eng, p, h, n, k: T.sv_int(h.fields["_adj"].val[n.t][h.fields["_edge_list"].val[k.t]]),
     "ID": lambda eng, p, h, k: T.sv_int(h.fields["_edge_list"].val[k.t]),
+    # incidence metadata: keyed by the pair (hyperedge as it was listed by the caller, node)
+    "IM": lambda eng, p, h, k, n: T.scalar(T.META, h.fields["_incidences_metadata"].val[T.Pair(T.TUP, T.INT).mk(k.t, eng.coerce(n, T.INT).t)]),
+    "HASIM": lambda eng, p, h, k, n: T.sv_bool(h.fields["_incidences_metadata"].dom[T.Pair(T.TUP, T.INT).mk(k.t, eng.coerce(n, T.INT).t)]),
     "KLEN": lambda eng, p, h, k: T.sv_int(TH.tlen(k.t)),
     # count_sel(h, S, o, up_to): how many hyperedges of the set S have order == o (<= o when up_to)
     "count_sel": lambda eng, p, h, S, o, u: T.sv_int(CNT(S.t, eng.coerce(o, T.INT).t, eng.truth(u, p))),
@@ -420,14 +423,20 @@ CONTRACTS = [
       raises={"ValueError": "node not in V(self) or (order is not None and size is not None)"},
       ensures={"result": "all(count(result, k) == (1 if k in E(self) and node in k and sel(self, k, order, size, False) else 0) for k in Tuple)"},
       properties=["C01", "C08"]),
-    C("get_sizes", params={}, result="Bag[Int]", pure=True,
+    C("get_sizes", params={}, result="Bag[Int]", pure=True, options={"image_counts"},
       ensures={"len": "len(result) == card(E(self))",
+               "exact": "all(count(result, s) == card({k for k in E(self) if len(k) == s}) for s in Int if trig(card({k for k in E(self) if len(k) == s})))",
                "members": "all(implies(count(result, s) >= 1, any(len(k) == s for k in E(self))) for s in Int)",
                "covers": "all(count(result, len(k)) >= 1 for k in E(self))"}),
-    C("get_orders", params={}, result="Bag[Int]", pure=True,
+    C("get_orders", params={}, result="Bag[Int]", pure=True, options={"image_counts"},
       ensures={"len": "len(result) == card(E(self))",
+               "exact": "all(count(result, s) == card({k for k in E(self) if len(k) - 1 == s}) for s in Int if trig(card({k for k in E(self) if len(k) - 1 == s})))",
                "members": "all(implies(count(result, s) >= 1, any(len(k) - 1 == s for k in E(self))) for s in Int)",
                "covers": "all(count(result, len(k) - 1) >= 1 for k in E(self))"}),
+    # size statistics: the histogram of the sizes (C01 "size statistics")
+    C("distribution_sizes", params={}, result="Map[Int,Int]", pure=True, requires={"wf": "wf(self)"},
+      ensures={"dom": "all((s in result) == any(len(k) == s for k in E(self)) for s in Int)",
+               "val": "all(result[s] == card({k for k in E(self) if len(k) == s}) for s in result)"}),
     # ------------------------------------------------------------------ batched forms
     # The list is modelled as a bag (any iteration order). Verified for lists of distinct stored canonical keys, which is
     # how remove_node uses it; arbitrary lists (unsorted node order, missing or repeated hyperedges -> KeyError after a
@@ -763,4 +772,22 @@ CONTRACTS += [
       ensures={"HM": "HM(self) == metadata"}, properties=['C01', 'C07']),
     C("set_attr_to_hypergraph_metadata", params={"field": "Field", "value": "Val"}, modifies=["_hypergraph_metadata"],
       ensures={"HM": "HM(self) == mset(HM(old(self)), field, value)"}, properties=['C01', 'C07']),
+    # incidence metadata (a `set_*_metadata` mutator of C01's alphabet): nothing but the incidence table changes (frame obligations), the hyperedge must be
+    # stored (tested on its canonical form), the entry is filed under the hyperedge *as listed* and the node
+    C("set_incidence_metadata", params={"edge": "Tup", "node": "Node", "metadata": "Meta"}, modifies=["_incidences_metadata"],
+      raises={"ValueError": "canon(edge) not in E(self)"},
+      ensures={"set": "HASIM(self, edge, node) and IM(self, edge, node) == metadata",
+               "others": "all(implies(k != edge or n != node, HASIM(self, k, n) == HASIM(old(self), k, n) and IM(self, k, n) == IM(old(self), k, n)) for k in Tuple for n in Node)"}),
+    C("get_incidence_metadata", params={"edge": "Tup", "node": "Node"}, result="Meta", pure=True,
+      raises={"ValueError": "canon(edge) not in E(self)", "KeyError": "canon(edge) in E(self) and not HASIM(self, edge, node)"},
+      ensures={"result": "result == IM(self, edge, node)"}),
+    C("get_all_incidences_metadata", params={}, result="Map[Pair[Tup,Int],Meta]", pure=True,
+      ensures={"dom": "all((pair(k, n) in result) == HASIM(self, k, n) for k in Tuple for n in Node)",
+               "val": "all(implies(HASIM(self, k, n), result[pair(k, n)] == IM(self, k, n)) for k in Tuple for n in Node)"}),
+    # the metadata tables as a whole
+    C("get_all_nodes_metadata", params={}, result="Map[Int,Meta]", pure=True,
+      ensures={"val": "all(implies(n in result, result[n] == NM(self, n)) for n in Node)", "same": "all(n in result for n in V(self))"},
+      requires={"wf": "wf(self)"}),
+    C("get_all_edges_metadata", params={}, result="Map[Int,Meta]", pure=True, requires={"wf": "wf(self)"},
+      ensures={"by_id": "all(ID(self, k) in result and result[ID(self, k)] == M(self, k) for k in E(self))"}),
 ]
